@@ -29,6 +29,7 @@ type Payload struct {
 	Tag  int   `json:"tag"`
 	Lat  int64 `json:"lat,omitempty"` // ns
 	Kind uint8 `json:"kind,omitempty"` // upkeep type: 0 conditional, 1 log trigger
+	Log  int   `json:"log,omitempty"`  // > 0: the trigger carries a LogTriggerExtension for log number Log
 }
 
 // Spec says what the scripted pipeline answers for a payload instance on one invocation.
@@ -112,9 +113,17 @@ func ReadHash(h [32]byte) int {
 func MkPayload(p Payload) common.UpkeepPayload {
 	cd := make([]byte, 8)
 	binary.BigEndian.PutUint64(cd, uint64(p.Tag))
+	trig := common.NewTrigger(common.BlockNumber(p.Blk), Hash32("bh", p.Hash))
+	if p.Log > 0 {
+		// the log (tx hash, index, log block) identifies the unit of work; the check block number and
+		// hash are the trigger's own and may change between checks of the same log
+		trig = common.NewLogTrigger(common.BlockNumber(p.Blk), Hash32("bh", p.Hash), &common.LogTriggerExtension{
+			TxHash: Hash32("tx", p.Log), Index: uint32(p.Log), BlockHash: Hash32("lb", p.Log), BlockNumber: 1,
+		})
+	}
 	return common.UpkeepPayload{
 		UpkeepID:  UpkeepID(p.Kind, p.Wid),
-		Trigger:   common.NewTrigger(common.BlockNumber(p.Blk), Hash32("bh", p.Hash)),
+		Trigger:   trig,
 		WorkID:    WorkID(p.Wid),
 		CheckData: cd,
 	}
